@@ -1,3 +1,81 @@
-From RBQL Require Import Base.
-Example C18_placeholder : True. Proof. exact I. Qed.
-Print Assumptions C18_placeholder.
+(* Props/C18.v — Python and JavaScript implementations agree on the CSV dialect and headers.
+   ONLY statements: each closed by [exact <lemma>] with Print Assumptions beneath.
+   Where the two ports are written differently they have TWO models and the agreement is a theorem:
+     quoting            Csv.v: quote_field_py / quote_field_js, rfc_quote_field_py / rfc_quote_field_js
+     readers            Reader.v (pull reader of rbql_csv.py) / ReaderJs.v (push reader of rbql_csv.js)
+     warning lists      py_warning_list / js_warning_list
+   Where they are line-for-line ports of each other they share ONE model, to which each is tied by its own correspondence
+   run (and the two are compared directly with each other, harness/props/c18.py):
+     smart_split (Csv.v), normalize_fields / the writers (CsvWriter.v, parametric in the port where they differ: delimiter flag,
+     js mono scalar), output header (Header.v; the derivation of column infos from the query text - Python ast, JS text spans -
+     is tied by the correspondence run on rendered select lists only). *)
+From RBQL Require Import Base Lines Csv CsvWriter CsvSpec CsvStr_Proofs Csv_Proofs CsvRoundtrip_Proofs.
+From RBQL Require Import Utf8 Reader ReaderJs Reader_Proofs ReaderJs_Proofs Header Header_Proofs.
+
+(* the two quoting functions are the same function, for every delimiter and field: quote_field tests the double quote first in one port and
+   the delimiter first in the other, rfc_quote_field tests the line breaks with a regular expression in one and two searches in
+   the other *)
+Theorem C18_quote_agree : forall dlm f : str,
+  quote_field_py dlm f = quote_field_js dlm f /\ rfc_quote_field_py dlm f = rfc_quote_field_js dlm f.
+Proof. exact (fun dlm f => conj (quote_field_agree dlm f) (rfc_quote_field_agree dlm f)). Qed.
+Print Assumptions C18_quote_agree.
+
+(* hence the written line is the same in both ports, for every policy *)
+Theorem C18_line_agree : forall (pol : policy) (dlm : str) (fs : list str),
+  join_line_fl LJs pol dlm fs = join_line_fl LPy pol dlm fs.
+Proof. exact (join_line_lang LJs). Qed.
+Print Assumptions C18_line_agree.
+
+(* a line written by EITHER port is split back (by the splitter both ports implement) into exactly its fields, without warning *)
+Theorem C18_cross_roundtrip : forall (writer : lang) (pol : policy) (dlm : str) (fs : list str),
+  good_dlm pol dlm = true -> line_ok pol dlm fs = true ->
+  smart_split pol dlm false (join_line_fl writer pol dlm fs) = (fs, false).
+Proof. exact line_roundtrip. Qed.
+Print Assumptions C18_cross_roundtrip.
+
+(* the two readers: on the same text, however it is delivered to either (Python: any read size >= 1 and any short reads;
+   JS: any chunks and any event-loop schedule), for any splitter, configuration (policy rfc or not, comment prefix, header,
+   encoding, query modifier) they return the same records, header, counters, the same error, and the same warning data - the
+   specification records_of_text.  comment_ok: the comment prefix contains no LF (see C18_comment_lf_refuted) *)
+Theorem C18_readers_agree : forall (split : str -> list str * bool) (c : cfg) (cs : nat) (pieces : list str) (b0 : bool) (chunks : list (str * bool)),
+  (1 <= cs)%nat -> Forall (fun p => p <> []) pieces -> comment_ok c -> js_chunks_ok false false (map fst chunks) ->
+  concat pieces = concat (map fst chunks) ->
+  run_js_decoded split c b0 chunks = jresult_of_result (run_py split c cs pieces) /\
+  run_py split c cs pieces = records_of_text split c (concat pieces).
+Proof. exact readers_agree. Qed.
+Print Assumptions C18_readers_agree.
+
+(* the same with the JS side reading the UTF-8 bytes of the text in any partition into non-empty chunks *)
+Theorem C18_readers_agree_bytes : forall (split : str -> list str * bool) (c : cfg) (cs : nat) (pieces : list str) (b0 : bool)
+    (chunks : list (bytes * bool)) (text : str),
+  (1 <= cs)%nat -> Forall (fun p => p <> []) pieces -> comment_ok c -> c_enc c = EncUtf8 ->
+  Forall (fun x => x <> []) (map fst chunks) -> decode_whole (concat (map fst chunks)) = Some text -> concat pieces = text ->
+  run_js_stream split c b0 chunks = jresult_of_result (run_py split c cs pieces).
+Proof. exact readers_agree_bytes. Qed.
+Print Assumptions C18_readers_agree_bytes.
+
+(* the ports list their warnings in different orders; the sets are equal *)
+Theorem C18_warnings_same_set : forall (w : warnings) x, In x (py_warning_list w) <-> In x (js_warning_list w).
+Proof. exact warnings_same_set. Qed.
+Print Assumptions C18_warnings_same_set.
+
+(* outside comment_ok the faithful models DISAGREE: quoted_rfc with a comment prefix that contains LF (rbql-py tests the prefix
+   on the assembled record, rbql-js on physical lines); recorded as an observation, the property's comment prefixes have no LF *)
+Theorem C18_comment_lf_refuted :
+  exists c text,
+    run_js_decoded (lite_split (Some [COMMA])) c true [(text, true)] <>
+    jresult_of_result (run_py (lite_split (Some [COMMA])) c 1 [text]).
+Proof. exact readers_disagree_lf_prefix. Qed.
+Print Assumptions C18_comment_lf_refuted.
+
+(* non-vacuity: a quoted_rfc text with a multi-line record, read by the Python model in 2-character reads over two pieces and
+   by the JS model in three chunks with mixed schedules, gives the same two records *)
+Example C18_nonvacuous :
+  let c := {| c_rfc := true; c_comment := Some [35%N]; c_header := false; c_enc := EncNone; c_modifier := None |} in
+  let sp := lite_split (Some [COMMA]) in
+  run_js_decoded sp c true [([QT; 97; LF]%N, true); ([98; QT; COMMA; 99; CR]%N, false); ([LF; 35; 120; LF; 100]%N, true)]
+  = jresult_of_result (run_py sp c 2 [[QT; 97; LF; 98; QT]%N; [COMMA; 99; CR; LF; 35; 120; LF; 100]%N])
+  /\ exists recs h w nl nr, run_py sp c 2 [[QT; 97; LF; 98; QT]%N; [COMMA; 99; CR; LF; 35; 120; LF; 100]%N] = ROk recs h w nl nr
+     /\ length recs = 2%nat.
+Proof. vm_compute. split; [reflexivity|]. repeat eexists. Qed.
+Print Assumptions C18_nonvacuous.
